@@ -540,6 +540,12 @@ func (n *NSQD) GetTopic(topicName string) *Topic {
 			if strings.HasSuffix(channelName, "#ephemeral") {
 				continue // do not create ephemeral channel with no consumer client
 			}
+			if !protocol.IsValidChannelName(channelName) {
+				// the name comes from the network: a channel whose name contains a blank or
+				// a newline would be announced to every nsqlookupd as extra command words/lines
+				n.logf(LOG_WARN, "TOPIC(%s): ignoring invalid channel name %q returned by nsqlookupd", t.name, channelName)
+				continue
+			}
 			t.GetChannel(channelName)
 		}
 	} else if len(n.getOpts().NSQLookupdTCPAddresses) > 0 {
